@@ -12,6 +12,8 @@ CONSTANTS
   AnyMaxHist = 4
   AnyMaxLen = 2
   AnyMaxSteps = 9
+  AnyFaults = TRUE
+  MaxFaults = 1
 CONSTRAINT AnyConstraint
 INVARIANTS TypeOK DisciplineSafe
 CHECK_DEADLOCK FALSE
